@@ -30,10 +30,16 @@ pub fn check_level_seq(o: &mut CaseOut, who: &str, seq: &[usize], lv: &BTreeMap<
     o.check(ls.windows(2).all(|p| p[0] <= p[1]), &format!("{who}:not-nearest-first"), || format!("{seq:?} with hop distances {ls:?}"));
 }
 
-fn check_bfs<D: Order + OutNeighbors + Clone>(d: &D, m: &Model, src: &[usize], o: &mut CaseOut) {
+fn check_bfs<D: Order + OutNeighbors + Clone>(d: &D, other: &D, other_src: &[usize], m: &Model, src: &[usize], o: &mut CaseOut) {
     let n = m.n();
     let lv = m.levels(src);
     let cap = 4 * n + 4;
+    {
+        // abandoned searches must not affect later ones
+        let _ = Bfs::new(d, src.iter().copied()).next();
+        let _ = BfsDist::new(d, src.iter().copied()).take(2).count();
+        let _ = BfsPred::new(d, src.iter().copied()).nth(1);
+    }
     let mut seq = Vec::new();
     for v in Bfs::new(d, src.iter().copied()) {
         seq.push(v);
@@ -46,7 +52,7 @@ fn check_bfs<D: Order + OutNeighbors + Clone>(d: &D, m: &Model, src: &[usize], o
         let fresh = Bfs::new(d, src.iter().copied());
         let via_clone: Vec<usize> = fresh.clone().take(cap).collect();
         o.eq("Bfs:clone-of-a-fresh-iterator", &via_clone, &seq);
-        let mut c = Bfs::new(d, std::iter::empty());
+        let mut c = Bfs::new(other, other_src.iter().copied());
         c.clone_from(&fresh);
         let via_clone_from: Vec<usize> = c.take(cap).collect();
         o.eq("Bfs:clone_from-of-a-fresh-iterator", &via_clone_from, &seq);
@@ -56,7 +62,7 @@ fn check_bfs<D: Order + OutNeighbors + Clone>(d: &D, m: &Model, src: &[usize], o
     check_level_seq(o, "BfsDist", &vs, &lv);
     let bad = items.iter().find(|&&(v, w)| lv.get(&v) != Some(&w));
     o.check(bad.is_none(), "BfsDist:item-distance", || format!("item {:?}, reference hop distance {:?}", bad.unwrap(), lv.get(&bad.unwrap().0)));
-    if n <= 40 && src.len() % 2 == 1 && m.size() % 6 == 1 {
+    if n <= 40 && m.size() % 6 == 1 {
         crate::obs::iter_consistency(o, "Bfs", || Bfs::new(d, src.iter().copied()));
         crate::obs::iter_consistency(o, "BfsDist", || BfsDist::new(d, src.iter().copied()));
     }
@@ -91,17 +97,21 @@ pub fn case(idx: u64, seed: u64, p: &Params, o: &mut CaseOut) {
     let (m, src, fam) = if huge { huge_path(&mut r) } else { gen_case(&mut r, p.usize("max_order", 20)) };
     let only = p.usize("type", usize::MAX);
     let ty = if huge { r.below(2) } else if only < 5 { only } else { r.below(6) };
+    // another digraph (a circuit of the same or of another order) for the clone_from check
+    let on = if huge { 3 } else if r.chance(0.6) { m.n() } else { r.range(1, 12) };
+    let om = gen::family(&mut r, 4, on);
+    let osrc = vec![on - 1];
     // ty == 5: all five types on the same abstract digraph
     for t in 0..5 {
         if ty != 5 && ty != t {
             continue;
         }
         match t {
-            0 => check_bfs(&AdjacencyList::build(&m), &m, &src, o),
-            1 => check_bfs(&AdjacencyMap::build(&m), &m, &src, o),
-            2 => check_bfs(&AdjacencyMatrix::build(&m), &m, &src, o),
-            3 => check_bfs(&EdgeList::build(&m), &m, &src, o),
-            _ => check_bfs(&build_w_usize(&m), &m, &src, o),
+            0 => check_bfs(&AdjacencyList::build(&m), &AdjacencyList::build(&om), &osrc, &m, &src, o),
+            1 => check_bfs(&AdjacencyMap::build(&m), &AdjacencyMap::build(&om), &osrc, &m, &src, o),
+            2 => check_bfs(&AdjacencyMatrix::build(&m), &AdjacencyMatrix::build(&om), &osrc, &m, &src, o),
+            3 => check_bfs(&EdgeList::build(&m), &EdgeList::build(&om), &osrc, &m, &src, o),
+            _ => check_bfs(&build_w_usize(&m), &build_w_usize(&om), &osrc, &m, &src, o),
         }
         o.bump(TYPES[t]);
     }
